@@ -20,14 +20,15 @@ import (
 type pos struct{ chain, class, id string }
 
 type flight struct {
-	tok    string // native token identity
-	amount uint64
-	sender string
-	srcPos pos
-	away   bool
-	done   bool // delivered successfully, or refunded
-	errAck bool
-	pkt    packettypes.Packet
+	tok     string // native token identity
+	amount  uint64
+	sender  string
+	srcPos  pos
+	away    bool
+	done    bool // delivered successfully, or refunded
+	arrived bool // delivered successfully on the destination chain
+	errAck  bool
+	pkt     packettypes.Packet
 }
 
 type Ledger struct {
@@ -167,6 +168,7 @@ func (g *TransferGen) nftAfterRecv(c *tibctesting.TestChain, p packettypes.Packe
 		return
 	}
 	fl.done = true
+	fl.arrived = true
 	if len(changed) != 1 {
 		g.w.hit("C04", fmt.Sprintf("successful-delivery-changed-%d-tokens %s", len(changed), fkey(p)))
 		return
@@ -235,6 +237,9 @@ func (g *TransferGen) nftAfterAck(c *tibctesting.TestChain, p packettypes.Packet
 			g.w.hit("C06", fmt.Sprintf("refund-not-exact sender-does-not-hold %s/%s %s", fl.srcPos.class, fl.srcPos.id, fkey(p)))
 		}
 		g.led.ident[fl.srcPos] = fl.tok
+		if fl.arrived {
+			g.w.hit("C06", fmt.Sprintf("sender-refunded-although-the-token-was-delivered relay-named-in-ack=%s %s", undash(p.RelayChain), fkey(p)))
+		}
 		fl.done = true
 	} else if fmt.Sprint(sortedOwners(before)) != fmt.Sprint(sortedOwners(after)) {
 		g.w.hit("C06", "success-ack-changed-token-state "+fkey(p))
@@ -385,6 +390,7 @@ func (g *TransferGen) mtAfterRecv(c *tibctesting.TestChain, p packettypes.Packet
 		return
 	}
 	fl.done = true
+	fl.arrived = true
 	// which (class,id) gained units for a non-module holder, or for the module when it is the receiver
 	for k, v := range after.bal {
 		if v > before.bal[k] {
@@ -444,6 +450,9 @@ func (g *TransferGen) mtAfterAck(c *tibctesting.TestChain, p packettypes.Packet,
 		k := fl.srcPos.class + "\x00" + fl.srcPos.id + "\x00" + fl.sender
 		if after.bal[k] != before.bal[k]+fl.amount {
 			g.w.hit("C06", fmt.Sprintf("refund-not-exact sender-balance %d -> %d expected +%d %s", before.bal[k], after.bal[k], fl.amount, fkey(p)))
+		}
+		if fl.arrived {
+			g.w.hit("C06", fmt.Sprintf("sender-refunded-although-the-token-was-delivered relay-named-in-ack=%s %s", undash(p.RelayChain), fkey(p)))
 		}
 		fl.done = true
 	} else if !same {
